@@ -278,54 +278,69 @@ def scale_floor(geo, mask, stack, semi):
     return 0.01 * float(np.abs(stack).max()) / max(W, 1e-3)
 
 
-COND_MIN = 3e-2
+ILL_THR = 1e-3
 _COND = {"hook": True}
 
 
-def cond_ratio(dp, cfg):
-    """smallest non-zero |gamma_j(q)| relative to the largest, over all BF pixels and scan
-    frequencies (None if the per-pixel hook is not available).  ssb divides by |gamma_j| and obf by
-    sqrt(sum_j |gamma_j|^2): where gamma is analytically zero but numerically ~1e-6 (cancellation of
-    two O(1) float32 numbers) that quotient is rounding noise of O(1), and float32 kernels round
-    differently for different batch shapes.  Such inputs are ill-conditioned for EVERY schedule; they
-    are not used to judge batch invariance (the model run shows the skeleton still agrees)."""
+def gamma2(dp, cfg):
+    """per-pixel |gamma_j(q)|^2 (what the obf kernel reports as its power at batch size 1), or None
+    if the per-pixel hook is not available.
+    ssb divides by |gamma_j| and obf by sqrt(sum_j |gamma_j|^2).  Where gamma is analytically zero but
+    numerically ~1e-7 (cancellation of two O(1) float32 numbers) that quotient is rounding noise of
+    O(1), and torch's float32 kernels occasionally round differently for different batch shapes
+    (observed: 2.5e-4 relative difference between batch sizes, seed 16 of the quick tier, while the
+    skeleton fed with the contributions of the same run agrees to 2e-8).  Those (pixel, frequency)
+    entries are ill-conditioned for EVERY schedule and are left out of the comparison; a streaming
+    defect changes all frequencies."""
     kw = rkw(dict(cfg, kernel="obf"))
     recd = hooked_contributions(dp, kw)
     if recd is None or any(x[1] is None for x in recd):
         _COND["hook"] = False
         return None
-    g2 = np.array([x[1] for x in recd], np.float64)
-    mx = float(g2.max())
-    pos = g2[g2 > 0]
-    if mx <= 0 or pos.size == 0:
-        return 1.0
-    return math.sqrt(float(pos.min()) / mx)
+    return np.array([x[1] for x in recd], np.float64)
+
+
+def ill_mask(kernel, g2):
+    if g2 is None or kernel not in ("ssb", "obf"):
+        return None
+    if kernel == "ssb":
+        return (g2 > 0) & (g2 < ILL_THR ** 2 * g2.max())
+    P = g2.sum(0)
+    return np.broadcast_to((P > 0) & (P < ILL_THR ** 2 * P.max()), g2.shape)
+
+
+def close_cond(kernel, got, ref, rtol, scale, ill, pix=None):
+    """comparison of two corrected stacks; for ssb/obf in Fourier space without the ill-conditioned
+    entries (see gamma2).  `pix`: rows of `ill` that correspond to the images (sub-masks)."""
+    if kernel not in ("ssb", "obf"):
+        return close(got, ref, rtol, scale)
+    if ill is None:
+        return close(got, ref, 2e-2, scale)          # conditioning unknown: noise ceiling
+    got = np.asarray(got, np.float64)
+    ref = np.asarray(ref, np.float64)
+    if got.shape != ref.shape or not (np.isfinite(got).all() and np.isfinite(ref).all()):
+        return False, float("inf")
+    m = ill if pix is None else ill[pix]
+    if m.shape != got.shape:
+        return close(got, ref, 2e-2, scale)
+    D = np.fft.fft2(got - ref)
+    D[m] = 0
+    fs = max(float(np.abs(np.fft.fft2(ref)).max()), scale)
+    err = float(np.abs(D).max()) / fs
+    return err <= rtol, err
 
 
 def gen_case(r, kernel, small=False, tweak=None):
-    """geometry + config; for the kernels that divide by |gamma| (ssb, obf) redraw until the case is
-    well-conditioned (see cond_ratio)"""
-    for attempt in range(12):
-        geo = gen_geometry(r, small=small)
-        cfg = gen_config(r, kernel)
-        if tweak:
-            tweak(geo, cfg)
-        if kernel not in ("ssb", "obf"):
-            return geo, cfg, None
-        dp, *_ = build(geo, aberr=cfg["aberr"])
-        c = cond_ratio(dp, cfg)
-        if c is None or c >= COND_MIN:
-            return geo, cfg, c
-    return geo, cfg, c
+    geo = gen_geometry(r, small=small)
+    cfg = gen_config(r, kernel)
+    if tweak:
+        tweak(geo, cfg)
+    return geo, cfg, None
 
 
 def rt_batch(kernel):
-    """relative tolerance of the batch-size comparison: float32 results; observed 5e-7 (mf, prlx, icom) and
-    up to 3e-6 for well-conditioned ssb/obf; if the conditioning cannot be measured (hook renamed) the
-    ssb/obf tolerance is loosened to the noise ceiling of ill-conditioned inputs"""
-    if kernel in ("ssb", "obf"):
-        return 1e-4 if _COND["hook"] else 2e-2
-    return RT_BATCH
+    """relative tolerance of the batch-size comparison (float32 results; observed <= 3e-6)"""
+    return 1e-4 if kernel in ("ssb", "obf") else RT_BATCH
 
 
 def gen_config(r, kernel=None):
@@ -358,7 +373,7 @@ def rkw(cfg, name=None, b=None, bf_mask=None):
     return kw
 
 
-RT_BATCH = 2e-5     # float32 results; observed 3e-7
+RT_BATCH = 1e-4     # float32 results; observed <= 1.3e-5 over ~20000 reconstructions (typically 3e-7)
 RT_LIN = 1e-4       # observed 2e-6
 RT_ANA = 1e-4       # float32 FFT pipeline vs float64 reference; observed 1e-6
 RT_CORR = 1e-4
@@ -368,6 +383,7 @@ def oracle_batch_alias(ctx, geo, cfg, replay_only=False):
     """every batch size 1..num_bf and every alias give the same corrected stack"""
     dp, mask, stack, semi = build(geo, aberr=cfg["aberr"])
     nbf = int(mask.sum())
+    ill = ill_mask(cfg["kernel"], gamma2(dp, cfg)) if cfg["kernel"] in ("ssb", "obf") else None
     ref = rec(dp, **rkw(cfg))
     own = float(np.abs(ref).max())
     scale = max(own, scale_floor(geo, mask, stack, semi))
@@ -375,7 +391,7 @@ def oracle_batch_alias(ctx, geo, cfg, replay_only=False):
     worst = 0.0
     for b in range(1, nbf + 1):
         got = rec(dp, **rkw(cfg, b=b))
-        ok, err = close(got, ref, rt_batch(cfg["kernel"]), scale)
+        ok, err = close_cond(cfg["kernel"], got, ref, rt_batch(cfg["kernel"]), scale, ill)
         worst = max(worst, err)
         if not ok:
             out.append(("batch-size-dependence/%s" % cfg["kernel"],
@@ -384,7 +400,7 @@ def oracle_batch_alias(ctx, geo, cfg, replay_only=False):
             break
     for name in KERNELS[cfg["kernel"]][1:] + [cfg["kernel"].upper()]:
         got = rec(dp, **rkw(cfg, name=name, b=max(1, nbf // 2)))
-        ok, err = close(got, ref, rt_batch(cfg["kernel"]), scale)
+        ok, err = close_cond(cfg["kernel"], got, ref, rt_batch(cfg["kernel"]), scale, ill)
         if not ok:
             out.append(("alias-differs/%s" % cfg["kernel"],
                         "kernel alias %r differs from %r by %.3g" % (name, cfg["kernel"], err), {"alias": name}))
@@ -459,6 +475,8 @@ def oracle_submask(ctx, geo, cfg, parts_l):
     full_bf = full.sum(0)
     scale = max(float(np.abs(full).max()), scale_floor(geo, mask, stack, semi))
     pos_full = list(zip(*np.nonzero(mask)))
+    ill = ill_mask(cfg["kernel"], gamma2(dp, cfg)) if cfg["kernel"] == "ssb" else None
+    noisy = cfg["kernel"] == "ssb" and (ill is None or bool(ill.any()))
     wimp = aperture_weights_impl(dp, geo, cfg["aberr"])
     wown = aperture_weights(geo, semi)
     out = []
@@ -471,7 +489,8 @@ def oracle_submask(ctx, geo, cfg, parts_l):
         if got.shape[0] != len(pos):
             out.append(("submask-shape", "sub-mask with %d pixels gave %d images" % (len(pos), got.shape[0]), {}))
             return out, 0.0
-        ref = np.array([full[pos_full.index(p)] for p in pos])
+        rows = [pos_full.index(p) for p in pos]
+        ref = full[rows]
         den = float((ref * ref).sum())
         if float(np.abs(ref).max()) < scale_floor(geo, mask, stack, semi):
             # degenerate: the full reconstruction of these pixels vanishes (e.g. parallax with sign flipping
@@ -488,7 +507,8 @@ def oracle_submask(ctx, geo, cfg, parts_l):
                 comb_imp += float(wimp[pm].sum()) * got.sum(0)
             continue
         ratio = float((got * ref).sum() / den)       # = W_full / W_part
-        ok, err = close(got, ratio * ref, max(RT_LIN, rt_batch(cfg["kernel"])), scale * max(abs(ratio), 1.0))
+        ok, err = close_cond(cfg["kernel"], got, ratio * ref, max(RT_LIN, rt_batch(cfg["kernel"])),
+                             scale * max(abs(ratio), 1.0), ill, pix=rows)
         if not ok or not np.isfinite(ratio) or ratio <= 0:
             out.append(("submask-entry-mismatch/%s" % cfg["kernel"],
                         "kernel %s: images of sub-mask %d are not a common multiple of the matching images of the "
@@ -502,7 +522,7 @@ def oracle_submask(ctx, geo, cfg, parts_l):
             comb_imp += float(wimp[pm].sum()) * got.sum(0)
     tot = sum(inv_ratios) if inv_ratios is not None else 1.0
     worst = abs(tot - 1.0)
-    if abs(tot - 1.0) > max(RT_LIN * 10, rt_batch(cfg["kernel"])):
+    if abs(tot - 1.0) > (2e-2 if noisy else RT_LIN * 10):
         out.append(("submask-weights-not-additive/%s" % cfg["kernel"],
                     "kernel %s: the weights W_part/W_full measured from the sub-mask results sum to %.6g, not 1"
                     % (cfg["kernel"], tot), {}))
@@ -510,7 +530,7 @@ def oracle_submask(ctx, geo, cfg, parts_l):
         if w is None:
             continue
         Wf = float(w[mask].sum())
-        ok, err = close(comb, Wf * full_bf, max(RT_LIN * 3, rt_batch(cfg["kernel"])), Wf * max(float(np.abs(full_bf).max()), scale))
+        ok, err = close(comb, Wf * full_bf, 2e-2 if noisy else RT_LIN * 3, Wf * max(float(np.abs(full_bf).max()), scale))
         worst = max(worst, err)
         if not ok:
             out.append(("submask-recombination/%s" % cfg["kernel"],
@@ -633,8 +653,9 @@ def pair_to_float(p):
     return math.ldexp(float(m), int(e)) if abs(e) < 1100 else (0.0 if e < 0 else float("inf"))
 
 
-def hooked_contributions(dp, kw):
-    """per-pixel first-pass numerators / powers of the implementation at batch size 1"""
+def hooked_contributions(dp, kw, b=1):
+    """what _return_kernel_contributions returned for every batch of one reconstruct(max_batch_size=b):
+    list of (numerators of the batch [len, N1, N2], batch power [N1, N2] or None)"""
     if not hasattr(dp, "_return_kernel_contributions"):
         return None
     orig = dp._return_kernel_contributions
@@ -649,7 +670,7 @@ def hooked_contributions(dp, kw):
     try:
         object.__setattr__(dp, "_return_kernel_contributions", wrapper)
         kw = dict(kw)
-        kw["max_batch_size"] = 1
+        kw["max_batch_size"] = b
         kw.setdefault("verbose", 0)
         dp.reconstruct(**kw)
     finally:
@@ -661,39 +682,48 @@ def hooked_contributions(dp, kw):
 
 
 def skeleton_case(ctx, geo, cfg):
-    """returns (expr, meta) for one skeleton correspondence case, or None if the hook is gone"""
+    """one skeleton correspondence case: for several batch sizes b, the per-pixel numerators (and the
+    per-batch powers) the implementation computed DURING the run with max_batch_size = b are the oracle
+    inputs of the model's streaming skeleton (run with the same b), whose output must be that run's
+    corrected_stack.  None if the hook is gone."""
     dp, mask, stack, semi = build(geo, aberr=cfg["aberr"])
     nbf = int(mask.sum())
-    kw = rkw(cfg)
-    recd = hooked_contributions(dp, kw)
-    if recd is None or len(recd) != nbf or any(x[0].shape[0] != 1 for x in recd):
-        return None
     u = cfg["u"]
     N1, N2 = geo["scan"][0] * u, geo["scan"][1] * u
-    contrib = [x[0][0] for x in recd]
     two = cfg["kernel"] in ("obf", "mf")
-    if two and any(x[1] is None for x in recd):
-        return None
     w = aperture_weights_impl(dp, geo, cfg["aberr"])
     if w is None:
         w = aperture_weights(geo, semi)
     wt = w[mask]
     env = butterworth(geo, u, cfg["lowpass"], cfg["highpass"])
     bsizes = sorted(set([1, 2, max(1, nbf - 1), nbf]))
-    wants = [rec(dp, **rkw(cfg, b=b)) for b in bsizes]
-    g = c_grid(N1, N2)
-    if two:
-        nf = "normf_obf" if cfg["kernel"] == "obf" else "(normf_mf %s)" % cfl(0.1)
-        run = "f_two %s g %s contrib pw wt env (batches_of %s @B@)" % (nf, cnat(nbf), cnat(nbf))
-        lets = "Definition pw := %s.\n" % c_stack_r([x[1] for x in recd])
-    else:
-        run = "f_single g %s contrib wt env (batches_of %s @B@)" % (cnat(nbf), cnat(nbf))
-        lets = ""
-    body = clist(["cmp_stack (%s) %s" % (run.replace("@B@", cnat(b)), c_stack_r(wt_)) for b, wt_ in zip(bsizes, wants)])
-    defs = "Definition g := %s.\nDefinition contrib := %s.\n%sDefinition wt := %s.\nDefinition env := %s.\n" % (
-        g, c_stack_c(contrib), lets, clist([cfl(x) for x in wt]), c_img_r(env))
-    return (defs, body), {"bsizes": bsizes, "nbf": nbf, "scale": float(max(np.abs(x).max() for x in wants)),
-                          "floor": scale_floor(geo, mask, stack, semi)}
+    defs = "Definition g := %s.\nDefinition wt := %s.\nDefinition env := %s.\n" % (
+        c_grid(N1, N2), clist([cfl(x) for x in wt]), c_img_r(env))
+    items = []
+    scale = 0.0
+    for b in bsizes:
+        recd = hooked_contributions(dp, rkw(cfg), b=b)
+        if recd is None or sum(x[0].shape[0] for x in recd) != nbf or (two and any(x[1] is None for x in recd)):
+            return None
+        want = dp.corrected_stack.detach().cpu().numpy().astype(np.float64)
+        scale = max(scale, float(np.abs(want).max()))
+        contrib = np.concatenate([x[0] for x in recd])
+        defs += "Definition contrib%d := %s.\nDefinition want%d := %s.\n" % (b, c_stack_c(contrib), b, c_stack_r(want))
+        if two:
+            # per-pixel powers are only available summed over each batch: hand the batch sum to the first
+            # pixel of the batch (the model adds the pixels of a batch, then accumulates over batches)
+            pw = []
+            for x in recd:
+                pw.append(x[1])
+                pw += [np.zeros_like(x[1])] * (x[0].shape[0] - 1)
+            defs += "Definition pw%d := %s.\n" % (b, c_stack_r(pw))
+            nf = "normf_obf" if cfg["kernel"] == "obf" else "(normf_mf %s)" % cfl(0.1)
+            run = "f_two %s g %s contrib%d pw%d wt env (batches_of %s %s)" % (nf, cnat(nbf), b, b, cnat(nbf), cnat(b))
+        else:
+            run = "f_single g %s contrib%d wt env (batches_of %s %s)" % (cnat(nbf), b, cnat(nbf), cnat(b))
+        items.append("cmp_stack (%s) want%d" % (run, b))
+    return (defs, clist(items)), {"bsizes": bsizes, "nbf": nbf, "scale": scale,
+                                  "floor": scale_floor(geo, mask, stack, semi)}
 
 
 def pipeline_case(ctx, geo, cfg, sub):
@@ -752,7 +782,7 @@ def observed_index_map(geo, mask, sub):
 def check_index_map(ctx: Ctx):
     r = ctx.rng
     cases = []
-    for _ in range(ctx.budget(80, 1500)):
+    for _ in range(ctx.budget(120, 1500)):
         G = (r.randint(2, 6), r.randint(2, 7))
         nfull = r.randint(2, min(12, G[0] * G[1]))
         cells = r.sample(range(G[0] * G[1]), nfull)
@@ -838,8 +868,13 @@ def eval_files(ctx: Ctx, name, cases, timeout=200):
 def check_skeleton(ctx: Ctx):
     r = ctx.rng
     exprs, metas = [], []
-    kinds = list(KERNELS) * ctx.budget(2, 12) + ["obf", "mf"]
+    kinds = list(KERNELS) * ctx.budget(3, 12) + ["obf", "mf"]
     hook_missing = False
+    for c in corpus(ctx).get("batch", []):
+        sc = skeleton_case(ctx, c["geo"], c["cfg"])
+        if sc is not None:
+            exprs.append(sc[0])
+            metas.append(("skeleton", c["geo"], c["cfg"], sc[1]))
     for k in kinds:
         def tw(geo, cfg):
             cfg["u"] = r.choice([1, 1, 2])
@@ -884,7 +919,7 @@ def check_skeleton(ctx: Ctx):
             ctx.dist("model-run/%s/%s/u=%d" % (kind, cfg["kernel"], cfg["u"]))
             if math.isfinite(rel):
                 worst = max(worst, rel)
-            if not (rel <= max(RT_CORR, rt_batch(cfg["kernel"]))):
+            if not (rel <= RT_CORR):
                 nd += 1
                 ctx.cov["disagreements_checked"] += 1
                 b = meta["bsizes"][idx] if kind == "skeleton" else None
@@ -916,21 +951,32 @@ def report(ctx, found, geo, cfg, which, extra=None):
                                                   cfg["lowpass"], cfg["highpass"], cfg["flip"]), rp)
 
 
+def corpus(ctx):
+    from ..common import VERIF
+    pth = VERIF / "corpus" / "C04" / "corpus.json"
+    return json.loads(pth.read_text()) if pth.exists() else {}
+
+
 def run_oracles(ctx: Ctx):
     r = ctx.rng
     worst = {"batch": 0.0, "linear": 0.0, "submask": 0.0, "parallax": 0.0, "intshift": 0.0}
+    # --- corpus (regression cases) first
+    for c in corpus(ctx).get("batch", []):
+        found, err, nbf, scale = oracle_batch_alias(ctx, c["geo"], c["cfg"])
+        ctx.count(("corpus", json.dumps(c["geo"], sort_keys=True), json.dumps(c["cfg"], sort_keys=True)), n=nbf)
+        ctx.dist("corpus/batch")
+        report(ctx, found, c["geo"], c["cfg"], "batch")
     # --- batch sizes + aliases: every kernel, several geometries
-    nrep = ctx.budget(5, 100)
+    nrep = ctx.budget(8, 100)
     for rep in range(nrep):
         for k in KERNELS:
             def tw(geo, cfg, rep=rep):
                 if rep < 3:
                     cfg["u"] = rep + 1
             geo, cfg, cnd = gen_case(r, k, tweak=tw)
-            if cnd is not None:
-                ctx.dist("conditioning/%s" % ("ok" if cnd >= COND_MIN else "ill-conditioned-kept"))
             found, err, nbf, scale = oracle_batch_alias(ctx, geo, cfg)
             worst["batch"] = max(worst["batch"], err if math.isfinite(err) else 0.0)
+            worst["batch/" + k] = max(worst.get("batch/" + k, 0.0), err if math.isfinite(err) else 0.0)
             ctx.count(("batch", json.dumps(geo, sort_keys=True), json.dumps(cfg, sort_keys=True)),
                       nontrivial=nbf > 2 and scale > 1e-12, n=nbf)
             ctx.dist("result/%s" % ("identically-zero" if scale <= 1e-12 else "non-zero"))
@@ -941,7 +987,7 @@ def run_oracles(ctx: Ctx):
             if rep == 0 and k == "obf":
                 ctx.sample({"kind": "batch", "geo": geo, "cfg": cfg, "num_bf": nbf, "worst_relative_difference": err})
     # --- linearity
-    for rep in range(ctx.budget(3, 60)):
+    for rep in range(ctx.budget(4, 60)):
         for k in KERNELS:
             geo = gen_geometry(r)
             cfg = gen_config(r, k)
@@ -952,7 +998,7 @@ def run_oracles(ctx: Ctx):
             ctx.dist("linear/%s" % k)
             report(ctx, found, geo, cfg, "linear", {"coef": list(coef)})
     # --- sub-mask recombination (single-pass kernels)
-    for rep in range(ctx.budget(4, 80)):
+    for rep in range(ctx.budget(6, 80)):
         for k in SINGLE_PASS:
             geo, cfg, _ = gen_case(r, k)
             parts = split_mask_weighted(r, geo, r.choice([2, 2, 3]))
@@ -963,7 +1009,7 @@ def run_oracles(ctx: Ctx):
             ctx.dist("submask/%s/parts=%d" % (k, len(parts)))
             report(ctx, found, geo, cfg, "submask", {"parts": parts_l})
     # --- analytic parallax
-    for rep in range(ctx.budget(16, 300)):
+    for rep in range(ctx.budget(24, 300)):
         geo = gen_geometry(r)
         cfg = gen_config(r, "prlx")
         cfg["flip"] = False
